@@ -10,7 +10,7 @@ are parameters (`Callback`, DESIGN §4): the ordinal of a call is the number of
 earlier calls of the *same* validator within the operation.
 -/
 import TraitsVerif.Py.Dict
-namespace TraitsVerif.Model
+namespace TraitsVerif.Model.Map
 open TraitsVerif TraitsVerif.Py
 open TraitsVerif.Py.Dict (get? contains set erase update ofPairs Op Ret)
 
@@ -452,4 +452,4 @@ def dictModelledMutators : List String :=
 documented conversion"); the invariant of property C04. -/
 def TraitDict.ValidOut {α : Type} (v : Callback α α) (x : α) : Prop := ∃ n y, v n y = .ok x
 
-end TraitsVerif.Model
+end TraitsVerif.Model.Map
